@@ -42,7 +42,32 @@ def configs():
         mimetypes.init()
         for i, k in enumerate(_mime_keys()):
             mimetypes.add_type(k, f".c07m{i}")
-    return [("default", default), ("empty", empty), ("hostile", hostile), ("mime-table", mime_table)]
+    def mime_variants():
+        # a host database (fresh: nothing of the platform's files) that answers with spellings of the table's MIME types that
+        # are NOT table keys -- other case, parameters, blanks -- for extensions the router does not know: whatever the MIME
+        # fallback does with such an answer, both entry points must do the same
+        empty()
+        for ext, v in _mime_variants():
+            mimetypes.add_type(v, ext)
+    return [("default", default), ("empty", empty), ("hostile", hostile), ("mime-table", mime_table), ("mime-variants", mime_variants)]
+
+
+def _mime_variants():
+    """[(private extension, spelling)]: for every key of MIME_TYPE_MAPPING its case variants and parameterised variants that are
+    not themselves keys (computed from the table of the tree under test, so independent of what it happens to contain)"""
+    from sharepoint2text.parsing.mime_types import MIME_TYPE_MAPPING
+    out = []
+    for i, k in enumerate(sorted(MIME_TYPE_MAPPING)):
+        major, _, minor = k.partition("/")
+        cands = [k.upper(), k.lower(), k.title(), k.swapcase(), f"{major.capitalize()}/{minor}", f"{major}/{minor.upper()}",
+                 f"{k}; charset=utf-8", f"{k};version=1", f"{k} ", f" {k}", f"{k};", f"{k.upper()}; charset=UTF-8", f"x-{k}", f"{k}+zip"]
+        seen = set()
+        for j, v in enumerate(cands):
+            if v in MIME_TYPE_MAPPING or v in seen:
+                continue
+            seen.add(v)
+            out.append((f".c07v{i}x{j}", v))
+    return out
 
 
 def _mime_keys():
@@ -60,6 +85,10 @@ def paths(extra=()):
         # names that only the MIME fallback can decide: private extensions (typed by the "mime-table" configuration) and
         # data: URLs, which carry their type in the string on every host
         out += [f"a.c07m{i}", f"Dir/B.C07M{i}", f"data:{k};base64,QUJD"]
+    for ext, v in _mime_variants():
+        out.append(f"v{ext}")
+        if " " not in v and v.count(";") <= 1:
+            out.append(f"data:{v};base64,QUJD" if ";" not in v else f"data:{v},QUJD")
     for s in stems:
         for e in exts:
             for variant in {e, e.upper(), e.capitalize()}:
@@ -504,6 +533,10 @@ def find(req):
 
 
 def _res(p, cfg, want, got, tried):
+    if cfg == "mime-variants":
+        hit = [(e, v) for (e, v) in _mime_variants() if p.lower().endswith(e)]
+        if hit:
+            cfg = f"mime-variants: fresh mimetypes database with add_type({hit[0][1]!r}, {hit[0][0]!r})"
     mimetypes.init()
     return {"reproduced": True, "target": "sharepoint2text/parsing/router.py", "inputs": {"path": p, "mimetypes": cfg},
             "expected": want, "observed": got, "tried": tried}
